@@ -14,6 +14,9 @@ import (
 	"fmt"
 	"sync"
 	"testing"
+	"time"
+
+	"golang.org/x/crypto/chacha20poly1305"
 
 	"github.com/postalsys/muti-metroo/internal/protocol"
 	"github.com/postalsys/muti-metroo/internal/verifkit"
@@ -40,8 +43,10 @@ func TestVerif_C04(t *testing.T) {
 		var mu sync.Mutex
 		leaks := map[string]string{}
 		scanned, scannedBytes := 0, 0
-		ct := mkInstallCryptoTap(false)
+		ct := mkInstallCryptoTap(true)
 		defer ct.close()
+		zeroAEAD, _ := chacha20poly1305.New(make([]byte, 32))
+		openedWithZeroKey := 0
 		// the scenario runner installs the frame tap; add the payload scanner to it
 		hook := func(tap *mkTap) {
 			tap.mu.Lock()
@@ -50,7 +55,17 @@ func TestVerif_C04(t *testing.T) {
 					return
 				}
 				hit := ""
-				if bytes.Contains(payload, []byte(mkCanary)) {
+				if len(payload) >= 28 {
+					// anyone can try the all-zero key: a frame that opens under it is readable by a transit
+					if _, err := zeroAEAD.Open(nil, payload[:12], payload[12:], nil); err == nil {
+						hit = "opens-under-all-zero-key"
+						mu.Lock()
+						openedWithZeroKey++
+						mu.Unlock()
+					}
+				}
+				if hit != "" {
+				} else if bytes.Contains(payload, []byte(mkCanary)) {
 					hit = "canary"
 				} else if bytes.Contains(payload, []byte(mkMagic)) {
 					hit = "tunnel-header"
@@ -65,11 +80,33 @@ func TestVerif_C04(t *testing.T) {
 			}
 			tap.mu.Unlock()
 		}
-		opts := c16Opts{OrderlyOnly: true, TapHook: hook, SkipDataOracle: true}
+		// half of the scenarios end tunnels abruptly (client cancels a download, server aborts):
+		// frames emitted around a teardown must be sealed under the tunnel key as well
+		opts := c16Opts{OrderlyOnly: ci%2 == 0, TapHook: hook, SkipDataOracle: true, AbortHeavy: ci%2 == 1, Watchdog: 20 * time.Second}
 		k := rng.Range(2, r.N(8, 24))
+		if ci%2 == 1 {
+			k = rng.Range(12, r.N(24, 48))
+		}
 		out, results, m, dest, tap := c16RunScenario(t, r, "scan", ci, rng, tp, k, int64(r.N(60000, 400000)), opts)
 		if out == nil {
 			return
+		}
+		if ci%2 == 1 {
+			// abort storm on the same mesh: many downloads cancelled by the client after the first
+			// few frames, while the exit is still reading from the destination at full speed
+			rounds, par := r.N(5, 20), 32
+			for rd := 0; rd < rounds; rd++ {
+				var wg sync.WaitGroup
+				for j := 0; j < par; j++ {
+					p := mkTunnelPlan{ID: uint64(ci)<<20 | uint64(0x4000+rd*par+j), Ingress: tp.Ingresses[0], Via: "tcp",
+						Dest: fmt.Sprintf("127.1.%d.%d:%d", 100+rd%50, 1+j, dest.port), C2S: 0, S2C: 6 << 20, Mode: mkModeClientAbort,
+						AbortAfter: int64(1 + rng.Intn(70000)), Chunk: 4096, ReadBuf: 4096}
+					wg.Add(1)
+					go func() { defer wg.Done(); mkRunTunnel(m, p, 20*time.Second) }()
+				}
+				wg.Wait()
+				r.Add("downloads_cancelled_mid_stream", par)
+			}
 		}
 		moved := 0
 		for _, cs := range results {
@@ -81,6 +118,12 @@ func TestVerif_C04(t *testing.T) {
 		tap.close()
 		dest.close()
 		mu.Lock()
+		ct.mu.Lock()
+		zeroSeals := ct.zeroKeySeals
+		ct.mu.Unlock()
+		if zeroSeals > 0 {
+			r.Violation("sealed-under-all-zero-key", "scan", ci, fmt.Sprintf("topology %s: %d payloads were sealed by a SessionKey whose key bytes are all zero (a key every transit knows)", tp.Name, zeroSeals), out.Plans)
+		}
 		for where, what := range leaks {
 			r.Violation("plaintext-on-link:stream-data", "scan", ci, fmt.Sprintf("topology %s: a data frame on an inter-agent link carries application plaintext (%s): %s", tp.Name, where, what), out.Plans)
 		}
